@@ -74,6 +74,18 @@ class Hooked(RecObj):
     self._record(locals())
 
 
+class Float(RecObj):
+  """A user class whose snake-cased name is a builtin's name."""
+
+  def __init__(self, bits=32, child=None):
+    self._record(locals())
+
+
+class Dict(RecObj):
+  def __init__(self, x=None, y=None):
+    self._record(locals())
+
+
 class NewOnly(RecObj):
   """Class with only __new__ (no __init__)."""
 
